@@ -1,5 +1,5 @@
 """Per-property checks: which theorems, which lanes (generators), which oracle."""
-import os, json, random
+import os, json, random, shutil
 from . import core, gen, run, oracles, leanaudit, build, shrink as shrinker
 
 def _run_scripts(ctx, scripts, lane, oracle=None, exe=None, scope=None, fill=0xA5, timeout=120):
@@ -69,11 +69,12 @@ API_RULE = ("state-aware API histories (declare points/channels, rates, paramete
             "a case is distinct/non-trivial by (lane, op kind, outcome class, size of the resulting dump)")
 
 # ------------------------------------------------------------------------------------------
-def check_api_property(ctx, oracle, n_quick, n_thorough, caller_mut=0.0, malformed=0.25, extra=None, scope=None, with_io=False, nops=30):
+def check_api_property(ctx, oracle, n_quick, n_thorough, caller_mut=0.0, malformed=0.25, extra=None, scope=None, with_io=False, nops=30, post=None):
     ctx.audit = leanaudit.audit(ctx.pid, thorough=not ctx.quick)
     n = n_quick if ctx.quick else n_thorough
     scripts = corpus_scripts(ctx.pid) + api_scripts(ctx, n, caller_mut=caller_mut, malformed=malformed, with_io=with_io, nops=nops)
     if extra: scripts += extra(ctx)
+    if post: scripts = post(scripts)
     _run_scripts(ctx, scripts, "api", oracle, scope=scope)
     if ctx.failures: _shrink_failures(ctx, oracle)
     return core.finish(ctx, API_RULE)
@@ -202,7 +203,18 @@ def loaded_edit_scripts(ctx):
 
 def c06(ctx): return check_api_property(ctx, oracles.c06, 160, 4000, extra=column_scripts)
 def c07(ctx): return check_api_property(ctx, oracles.c07, 200, 5000, malformed=0.45, extra=column_scripts)
-def c08(ctx): return check_api_property(ctx, oracles.c08, 160, 3000, caller_mut=0.6)
+def with_sep(scripts):
+    """after every call that hands data to the object, observe the separation invariant of Model/Heap.lean on the real heap"""
+    out = []
+    for L, st, name in scripts:
+        M = []
+        for l in L:
+            M.append(l)
+            if l.split(" ")[0] in ("frame", "frameself", "point", "analog", "pointcol", "analogcol", "load"): M.append("sep")
+        st = dict(st); st["op_sep"] = sum(1 for l in M if l == "sep")
+        out.append((M, st, name))
+    return out
+def c08(ctx): return check_api_property(ctx, oracles.c08, 160, 3000, caller_mut=0.6, post=with_sep)
 def c10(ctx): return check_api_property(ctx, oracles.c10, 200, 5000, malformed=0.5, extra=column_scripts)
 def c05(ctx): return check_api_property(ctx, oracles.c05, 200, 5000, with_io=True, extra=lambda c: ratio_scripts(c) + column_scripts(c) + loaded_edit_scripts(c))
 
@@ -1295,12 +1307,27 @@ def c19(ctx):
         jobs.append((L, "api-%d" % seed, None))
     for i in range(n // 2):
         jobs.append((["dumpmode full", "load @W@/in.c3d", "save @W@/o.c3d", "load @W@/o.c3d", "save @W@/o2.c3d"], "file-%d" % i, ctx.seed * 53 + i))
+    # files whose reserved header words are not zero: they pass through the multi-byte integer reader (270 and 44 bytes at a time)
+    for i in range(n // 4):
+        jobs.append((["dumpmode full", "load @W@/in.c3d", "save @W@/o.c3d", "load @W@/o.c3d", "save @W@/o2.c3d"], "dirtyhdr-%d" % i, -(ctx.seed * 59 + i + 1)))
     jobs.append((["dumpmode shape", "load /repo/test/c3dFiles/Vicon.c3d", "save @W@/v.c3d", "load /repo/test/c3dFiles/Qualisys.c3d", "save @W@/q.c3d", "load /repo/test/c3dFiles/Optotrak.c3d", "save @W@/o.c3d"], "vendor", None))
+    def mkinput(fseed, path):
+        c3dgen.make_file(abs(fseed), path)
+        if fseed < 0:
+            import random
+            r = random.Random(fseed)
+            b = bytearray(open(path, "rb").read())
+            z = 0
+            while z < len(b) and b[z] == 0: z += 1       # leading zero bytes of the layout variant
+            for lo, hi in ((24, 294), (468, 512)):
+                for k in range(r.randint(1, 6)):
+                    b[z + r.randrange(lo, hi)] = r.choice([1, 2, 0x7f, 0x80, 0xff, r.randrange(256)])
+            open(path, "wb").write(bytes(b))
     def one(job):
         L, tag, fseed = job
         outs = []
         wd = run.workdir()
-        if fseed is not None: c3dgen.make_file(fseed, os.path.join(wd, "in.c3d"))
+        if fseed is not None: mkinput(fseed, os.path.join(wd, "in.c3d"))
         text = "\n".join(L).replace("@W@", wd) + "\n"
         sp = os.path.join(wd, "s.txt"); open(sp, "w").write(text)
         saves = [l.split(" ")[1] for l in text.split("\n") if l.startswith("save ")]
@@ -1333,6 +1360,11 @@ def c19(ctx):
             except Exception: mfiles.append(None)
         if ref and (ms != ref[1][1]): fails.append(("_model", {}, "model stream differs from the -O0 static build"))
         elif ref and [f for f in mfiles] != ref[1][2] and all(f is not None for f in ref[1][2]): fails.append(("_model", {}, "model bytes differ from the -O0 static build"))
+        if fails and fseed is not None and any(c != "_model" for c, w, dt in fails):
+            os.makedirs(core.REPLAYS, exist_ok=True)
+            keep = os.path.join(core.REPLAYS, "C19-%s.c3d" % tag)
+            shutil.copy(os.path.join(wd, "in.c3d"), keep)
+            L[:] = [l.replace("@W@/in.c3d", keep) for l in L]
         run.cleanup(wd)
         return job, fails
     for (L, tag, fseed), fails in core.pmap(one, jobs, workers=12):
@@ -1342,7 +1374,7 @@ def c19(ctx):
         if len(ctx.samples) < 2: ctx.sample("[%s] " % tag + " ; ".join(l[:60] for l in L[:8]))
         for c, w, dt in fails:
             if c == "_model": ctx.disagreements.append(("builds", dt, L))
-            else: ctx.fail(c, w, dt, (["# generated input file seed %s" % fseed] if fseed is not None else []) + L)
+            else: ctx.fail(c, w, dt, L)
     ctx.count("builds", len(exes))
     # arithmetic UB actually executed (the licence a compiler would need to differ): UBSan in recover mode, reports by source line
     ub = ctx.exe("ubarith")
@@ -1350,7 +1382,7 @@ def c19(ctx):
     def oneub(job):
         L, tag, fseed = job
         wd = run.workdir()
-        if fseed is not None: c3dgen.make_file(fseed, os.path.join(wd, "in.c3d"))
+        if fseed is not None: mkinput(fseed, os.path.join(wd, "in.c3d"))
         sp = os.path.join(wd, "s.txt"); open(sp, "w").write("\n".join(L).replace("@W@", wd) + "\n")
         pr = subprocess.run([ub, sp, os.path.join(wd, "u.h")], stdout=subprocess.PIPE, stderr=subprocess.PIPE, env=dict(os.environ, UBSAN_OPTIONS="halt_on_error=0:print_stacktrace=0"), timeout=600)
         run.cleanup(wd)
